@@ -53,6 +53,7 @@ type Engine struct {
 	modPath   string
 	cfg       *CheckCfg
 	stubs     map[string]*ssa.Function
+	isStubFn  map[*ssa.Function]bool
 	noop      []string
 	initPkgs  map[string]bool
 	maxInstrs int64
@@ -62,6 +63,7 @@ type Engine struct {
 	pdoms     map[*ssa.Function]*pdomInfo
 	msCache   map[string]*ssa.Function
 	timeoutMs int
+	simpCache sync.Map
 	verbose   bool
 	solverLog string
 }
@@ -224,6 +226,7 @@ func (e *Engine) findFunc(name string) *ssa.Function {
 
 func (e *Engine) setStubs(h *HarnessCfg) error {
 	e.stubs = map[string]*ssa.Function{}
+	e.isStubFn = map[*ssa.Function]bool{}
 	all := map[string]string{}
 	for k, v := range e.cfg.Stubs {
 		all[k] = v
@@ -241,6 +244,7 @@ func (e *Engine) setStubs(h *HarnessCfg) error {
 			return fmt.Errorf("stub replacement %q not found", rep)
 		}
 		e.stubs[real] = f
+		e.isStubFn[f] = true
 	}
 	return nil
 }
@@ -310,6 +314,20 @@ func (e *Engine) explore(h *HarnessCfg, workers int) *HarnessResult {
 	}
 	seenViol := map[string]bool{}
 	var wg sync.WaitGroup
+	if e.verbose {
+		go func() {
+			for {
+				time.Sleep(10 * time.Second)
+				mu.Lock()
+				if stopped || (len(queue) == 0 && active == 0) {
+					mu.Unlock()
+					return
+				}
+				fmt.Printf("  [%s] paths=%d queue=%d active=%d ends=%v obligations=%d\n", h.Name, res.Paths, len(queue), active, res.EndKinds, res.Stats.Obligations)
+				mu.Unlock()
+			}
+		}()
+	}
 	for w := 0; w < workers; w++ {
 		wg.Add(1)
 		go func(wid int) {
@@ -424,6 +442,8 @@ func mergeStats(a, b *PathStats) {
 	a.Unknown += b.Unknown
 	a.Forks += b.Forks
 	a.Merges += b.Merges
+	a.SimpQueries += b.SimpQueries
+	a.IntervalDecided += b.IntervalDecided
 	for k := range b.Reached {
 		a.Reached[k] = true
 	}
